@@ -251,8 +251,19 @@ def setup(ctx, pid, required, extra_targets=()):
     return problems, hexe, lean.driver_path("drv_C01")
 
 
+# the end-to-end chain of the probing structures lives in Properties/C03ProbingBuild.lean; a regression there is a C01 regression
+REQUIRED_E2E = ["KV.C03ProbingBuild.probing_build_represents", "KV.C03ProbingBuild.probing_end_to_end",
+                "KV.C03ProbingBuild.demoPruned_represents", "KV.C03ProbingBuild.demoPruned_end_to_end"]
+
+
 def run(ctx):
-    problems, hexe, dexe = setup(ctx, "C01", REQUIRED)
+    problems, hexe, dexe = setup(ctx, "C01", REQUIRED, extra_targets=["Properties.C03ProbingBuild"])
+    if not problems:
+        o1, d1, names1 = ctx.cov.get("obligations", 0), ctx.cov.get("discharged", 0), list(ctx.cov.get("theorems", []))
+        problems += lean.audit(ctx, "C03ProbingBuild", REQUIRED_E2E)
+        ctx.cov["obligations"] += o1
+        ctx.cov["discharged"] += d1
+        ctx.cov["theorems"] = names1 + ctx.cov.get("theorems", [])
     if hexe is None or not os.path.exists(dexe):
         flow.report_obligation_failures(ctx, problems or ["driver drv_C01 missing"], False)
         return
